@@ -608,6 +608,37 @@ fn spawn_async_ao_list_in_task'''),
         ('hook-runs-before-dispatch-too', 'brush-core/src/commands.rs', "        // We still haven't found a command to invoke. We'll need to look for an external command.\n", "        if let Some(post_execute) = self.post_execute {\n            let _ = post_execute(&mut self.shell);\n        }\n"),
         ('unwrap-of-unchecked-builtin', 'brush-core/src/commands.rs', "        if self.shell.options().posix_mode\n            && builtin\n                .as_ref()\n                .is_some_and(|r| !r.disabled && r.special_builtin)\n        {", "        if self.shell.options().posix_mode {"),
     ],
+    'U31': [
+        ('not-equal-reads-nocaseglob', 'brush-core/src/extendedtests.rs', """                .set_case_insensitive(shell.options().case_insensitive_conditionals);
+
+            if shell.options().print_commands_and_arguments {
+                let expanded_right = expansion::basic_expand_word(shell, params, right).await?;
+                let escaped_right = escape::quote_if_needed(
+                    expanded_right.as_str(),
+                    escape::QuoteMode::BackslashEscape,
+                );
+                shell
+                    .trace_command(params, std::format!("[[ {s} {op} {escaped_right} ]]"))
+                    .await;
+            }
+
+            let eq = pattern.exactly_matches(s.as_str())?;""", """                .set_case_insensitive(shell.options().case_insensitive_pathname_expansion);
+
+            if shell.options().print_commands_and_arguments {
+                let expanded_right = expansion::basic_expand_word(shell, params, right).await?;
+                let escaped_right = escape::quote_if_needed(
+                    expanded_right.as_str(),
+                    escape::QuoteMode::BackslashEscape,
+                );
+                shell
+                    .trace_command(params, std::format!("[[ {s} {op} {escaped_right} ]]"))
+                    .await;
+            }
+
+            let eq = pattern.exactly_matches(s.as_str())?;"""),
+        ('string-test-not-equal-not-negated', 'brush-core/src/extendedtests.rs', "            let eq = pattern.exactly_matches(left)?;\n            Ok(!eq)", "            let eq = pattern.exactly_matches(left)?;\n            Ok(eq)"),
+        ('string-test-ignores-extglob-option', 'brush-core/src/extendedtests.rs', "            let pattern = patterns::Pattern::from(right)\n                .set_extended_globbing(shell.options().extended_globbing)\n                .set_case_insensitive(shell.options().case_insensitive_conditionals);\n\n            pattern.exactly_matches(left)\n", "            let pattern = patterns::Pattern::from(right)\n                .set_extended_globbing(true)\n                .set_case_insensitive(shell.options().case_insensitive_conditionals);\n\n            pattern.exactly_matches(left)\n"),
+    ],
     'U30': [
         ('shift-and-additive-levels-swapped', 'brush-parser/src/arithmetic.rs', '''            x:(@) _ "<<" _ y:@ { ast::ArithmeticExpr::BinaryOp(ast::BinaryOperator::ShiftLeft, Box::new(x), Box::new(y)) }
             x:(@) _ ">>" _ y:@ { ast::ArithmeticExpr::BinaryOp(ast::BinaryOperator::ShiftRight, Box::new(x), Box::new(y)) }
